@@ -318,6 +318,20 @@ func checkC13(c *Ctx, rt *rapid.T) {
 	w := GenWorld(g, opts)
 	w.Extras.Noise = true
 	addReplaceAndGrafts(g, w)
+	if g.Chance(1, 3, "usereplacerefs") {
+		// git's default spelled out somewhere in the configuration: it must
+		// not re-enable what git-sizer switched off
+		switch g.Pick(4, "usereplacescope") {
+		case 0:
+			w.Config.Local += "[core]\n\tuseReplaceRefs = true\n"
+		case 1:
+			w.Config.Global += "[core]\n\tuseReplaceRefs = true\n"
+		case 2:
+			w.Config.System += "[core]\n\tuseReplaceRefs = true\n"
+		default:
+			w.Config.Command = append(w.Config.Command, ConfigKV{Key: "core.useReplaceRefs", Value: "true"})
+		}
+	}
 	w.Bare = g.Chance(1, 4, "bare")
 	sc := &Scenario{Format: 1, Property: "C13", Engine: "B", World: w, Inv: Invocation{Args: []string{"--json", "--no-progress"}, Cwd: "top"}, Params: c13Params{Format: "json1"}}
 	if v := judgeC13(c, sc); v != nil {
@@ -538,7 +552,7 @@ func checkC17(c *Ctx, rt *rapid.T) {
 	w := GenWorld(g, opts)
 	w.Extras.Noise = true
 	if g.Chance(1, 3, "packed") {
-		w.Layout = g.PickStr([]string{"packed", "packed-refs"}, "layout")
+		w.Layout = g.PickStr([]string{"packed", "packed-refs", "bitmap"}, "layout")
 	}
 	if g.Chance(2, 3, "ties") {
 		// ties: several equally large maximal blobs side by side, equally wide
@@ -566,6 +580,36 @@ func checkC17(c *Ctx, rt *rapid.T) {
 				w.Refs = append(w.Refs, Ref{Name: name, OID: tg.ID})
 			}
 		}
+	}
+	if g.Rare(1, 5, "widetrees") {
+		// consecutive objects of 33-63 KB each (a flat directory of 1000-1900
+		// files changed in successive commits): buffers that are recycled
+		// between one object and the next would be written while still read
+		n := g.Int(1000, 1900, "wideentries")
+		e0 := w.Add(NewObject(KBlob, []byte{}))
+		e1 := w.Add(NewObject(KBlob, []byte("x\n")))
+		prev := ""
+		for k := 0; k < g.Int(2, 4, "widecommits"); k++ {
+			es := make([]TreeEntry, 0, n)
+			for i := 0; i < n; i++ {
+				oid := e0.ID
+				if i == k*7 {
+					oid = e1.ID
+				}
+				es = append(es, TreeEntry{Mode: 0o100644, Name: fmt.Sprintf("f%04d", i), OID: oid})
+			}
+			SortTreeEntries(es)
+			t := w.Add(NewObject(KTree, EncodeTree(es)))
+			cs := CommitSpec{Tree: t.ID, Author: ident("A", int64(1500000000+k), "+0000"), Committer: ident("C", int64(1500000000+k), "+0000"), Message: fmt.Sprintf("wide %d\n", k)}
+			if prev != "" {
+				cs.Parents = []string{prev}
+			}
+			prev = w.Add(NewObject(KCommit, EncodeCommit(cs))).ID
+		}
+		if !refConflicts(refSet(w), "refs/heads/wide") {
+			w.Refs = append(w.Refs, Ref{Name: "refs/heads/wide", OID: prev})
+		}
+		c.Stats.Probe("world-with-consecutive-33-63KB-trees")
 	}
 	gm := NewGroupModel()
 	forceTable := false
